@@ -94,6 +94,11 @@ func (ex *Exec) loopWriteSet(li *loopInfo, pre *State, cells map[*ssa.Alloc]bool
 				lw.ownedOnly[key] = true
 				return
 			}
+			if !isSlice && ex.loopFreshPointer(v, li) {
+				// a pointer variable that, inside the loop, only ever holds objects allocated inside the loop
+				// (new / &T{} / the result of a callee declared fresh): no object existing before the loop is written
+				return
+			}
 			lw.unknown[key] = true
 			return
 		}
@@ -333,4 +338,58 @@ func (ex *Exec) ownedSliceValue(v ssa.Value) bool {
 		}
 	}
 	return true
+}
+
+// loopFreshPointer: v is a load of a local pointer variable all of whose assignments lie inside the loop and
+// store either a fresh allocation or the first result of a call whose contract declares the result fresh.
+func (ex *Exec) loopFreshPointer(v ssa.Value, li *loopInfo) bool {
+	isFresh := func(x ssa.Value) bool {
+		switch x := x.(type) {
+		case *ssa.Alloc:
+			return x.Heap && li.blocks[x.Block()]
+		case *ssa.Extract:
+			call, ok := x.Tuple.(*ssa.Call)
+			if !ok || x.Index != 0 || !li.blocks[call.Block()] {
+				return false
+			}
+			ct, _ := ex.w.contractFor(call.Call.StaticCallee())
+			return ct != nil && ct.Fresh
+		case *ssa.Call:
+			if !li.blocks[x.Block()] {
+				return false
+			}
+			ct, _ := ex.w.contractFor(x.Call.StaticCallee())
+			return ct != nil && ct.Fresh
+		}
+		return false
+	}
+	if isFresh(v) {
+		return true
+	}
+	ld, ok := v.(*ssa.UnOp)
+	if !ok || ld.Op != token.MUL {
+		return false
+	}
+	a, ok := ld.X.(*ssa.Alloc)
+	if !ok {
+		return false
+	}
+	refs := a.Referrers()
+	if refs == nil {
+		return false
+	}
+	n := 0
+	for _, r := range *refs {
+		switch r := r.(type) {
+		case *ssa.UnOp, *ssa.DebugRef:
+		case *ssa.Store:
+			if r.Addr != a || !li.blocks[r.Block()] || !isFresh(r.Val) {
+				return false
+			}
+			n++
+		default:
+			return false
+		}
+	}
+	return n > 0
 }
